@@ -193,6 +193,9 @@ class C14(Prop):
             known_below = [l for l in clos if any(l.startswith(a) for a in led.rules)]
             qs = below + (data.draw(st.lists(st.sampled_from(known_below), max_size=3)) if known_below else [])
             probes.append(("probe", "fewer-rules", keep, qs))
+        if wes and data.draw(st.integers(0, 5)) == 0:
+            # the API accepts any integer as webentity id: attach a prefix to an id far above the counter, then query
+            probes.append(("probe", "foreign-id", data.draw(lru_from(case.vocab, clos)), max(led.issued) + data.draw(st.sampled_from([40, 1000]))))
         return probes
 
     def _invoke(self, case, call):
@@ -248,6 +251,8 @@ class C14(Prop):
         ctx = case.ctx
         if pop[1] == "fewer-rules":
             return self.fewer_rules(case, [B(a) for a in pop[2]], [B(q) for q in pop[3]])
+        if pop[1] == "foreign-id":
+            return self.foreign_id(case, pop[2], pop[3])
         for call in pop[2]:
             before = digest(case)
             outcome = "returned-empty"
@@ -273,6 +278,33 @@ class C14(Prop):
                 case.flag("non-empty-answer")
             if outcome == "refused" and case.led.closure:
                 case.flag("refused-on-non-empty-index")
+
+    def foreign_id(self, case, prefix, weid):
+        ctx, t, led = case.ctx, case.t, case.led
+        if B(prefix) in led.prefix_map:
+            return
+        try:
+            t.add_prefix_to_webentity(prefix, weid)          # a write (part of building the state), then read-only calls
+        except TraphException:
+            return
+        led.name(B(prefix))
+        led.prefix_map[B(prefix)] = weid
+        led.issued.append(weid)
+        for name in ("metrics", "count_pages", "webentity_prefix_iter", "get_webentities_links", "links_metrics"):
+            before = digest(case)
+            try:
+                r = getattr(t, name)()
+                if hasattr(r, "__next__"):
+                    list(r)
+            except Exception as e:
+                if type(e).__module__.startswith("hypothesis"):
+                    raise
+            after = digest(case)
+            ctx.event("call-after-foreign-id:" + name)
+            if before != after:
+                ctx.fail("store-modified", "after attaching %r to webentity id %r (never issued by the index), read-only call %s changed the stores"
+                         % (prefix, weid, name), case)
+        case.flag("foreign-id")
 
     def fewer_rules(self, case, keep, queries):
         ctx, idx = case.ctx, case.idx
